@@ -63,13 +63,14 @@ Section ExecProofs.
   Notation run := (run T V SQL render).
 
   (* construct_params(extracted_parameters=...) on a Compiled made from s0 yields the values of s *)
-  Lemma rebind_positional : forall ctx s0 s k b0 b, In s0 U -> In s U ->
+  Lemma rebind_positional : forall ctx s0 s k b0 b sets, In s0 U -> In s U ->
     gen_key T s0 = Some (k, b0) -> gen_key T s = Some (k, b) ->
-    (tsql _ (compile ctx s0 b0), rebind SQL (compile ctx s0 b0) b) = exec_direct ctx s.
+    (tsql _ (compile ctx s0 b0), rebind_many SQL (compile ctx s0 b0) b sets) = exec_direct ctx s sets.
   Proof.
-    intros ctx s0 s k b0 b H0 H1 K0 K1. unfold CacheExec.exec_direct, CacheExec.rebind, CacheExec.compile.
+    intros ctx s0 s k b0 b sets H0 H1 K0 K1. unfold CacheExec.exec_direct, CacheExec.rebind_many, CacheExec.compile.
     cbn [tsql tholes]. rewrite (HU_view s0 s k b0 b H0 H1 K0 K1). f_equal.
-    apply map_ext_in. intros l Hl.
+    apply map_ext. intro ps. apply map_ext_in. intros l Hl.
+    unfold param_with. destruct (alookup l ps) as [v|]; [reflexivity|].
     assert (In l (map blbl b0)) as Hl0.
     { apply (wf_complete T s0 k b0 (HU_wf _ H0) K0). apply (HU_kbl s0 H0).
       rewrite (HU_view s0 s k b0 b H0 H1 K0 K1). exact (Hholes _ _ _ Hl). }
@@ -106,7 +107,7 @@ Section ExecProofs.
       exists s0 b0, In s0 U /\ gen_key T s0 = Some (snd ck, b0) /\ t = compile (fst ck) s0 b0.
 
   Lemma exec_cached_ok : forall c x, Inv c -> In (s_stmt x) U ->
-    fst (exec_cached c x) = exec_direct (s_ctx x) (s_stmt x) /\ Inv (snd (exec_cached c x)).
+    fst (exec_cached c x) = exec_direct (s_ctx x) (s_stmt x) (s_sets x) /\ Inv (snd (exec_cached c x)).
   Proof.
     intros c x Hinv Hin. unfold CacheExec.exec_cached.
     destruct (if s_enabled x then gen_key T (s_stmt x) else None) as [[k b]|] eqn:Ek.
@@ -115,16 +116,16 @@ Section ExecProofs.
     destruct (clookup SQL (s_ctx x, k) c) as [t|] eqn:El.
     - split; [|exact Hinv]. cbn [fst].
       apply clookup_In in El. destruct (Hinv _ _ El) as [s0 [b0 [H0 [K0 Et]]]]. cbn [fst snd] in *.
-      subst t. exact (rebind_positional (s_ctx x) s0 (s_stmt x) k b0 b H0 Hin K0 K).
+      subst t. exact (rebind_positional (s_ctx x) s0 (s_stmt x) k b0 b (s_sets x) H0 Hin K0 K).
     - split; cbn [fst snd].
-      + exact (rebind_positional (s_ctx x) (s_stmt x) (s_stmt x) k b b Hin Hin K K).
+      + exact (rebind_positional (s_ctx x) (s_stmt x) (s_stmt x) k b b (s_sets x) Hin Hin K K).
       + intros ck t Ht. apply filter_In in Ht as [Ht _]. destruct Ht as [Ht|Ht].
         * inversion Ht; subst. exists (s_stmt x), b. repeat split; auto.
         * exact (Hinv _ _ Ht).
   Qed.
 
   Theorem run_ok : forall h c, Inv c -> (forall x, In x h -> In (s_stmt x) U) ->
-    fst (run c h) = map (fun x => exec_direct (s_ctx x) (s_stmt x)) h /\ Inv (snd (run c h)).
+    fst (run c h) = map (fun x => exec_direct (s_ctx x) (s_stmt x) (s_sets x)) h /\ Inv (snd (run c h)).
   Proof.
     induction h as [|x r IH]; intros c Hinv Hin; cbn [CacheExec.run map fst snd]; [split; [reflexivity | exact Hinv]|].
     destruct (exec_cached_ok c x Hinv (Hin x (or_introl eq_refl))) as [E1 I1].
